@@ -299,6 +299,21 @@ func checkC18(p *Prog, r *Report) {
 		}
 		if pkt != nil {
 			regular = fs.Holds(eq(tVar(pkt), tConst(p.ConstInt("IKCP_PACKET_REGULAR"))))
+		} else {
+			// the sampling was moved into a helper: the restriction to regular packets lives at its call sites
+			regular = p.holdsAtAllCallers(s.Fn, 0, func(cfs *FactSet, caller *FuncInfo, _ *ast.CallExpr) bool {
+				if caller.Decl == nil {
+					return false
+				}
+				for _, fl := range caller.Decl.Type.Params.List {
+					for _, nm := range fl.Names {
+						if v, ok := p.Info.Defs[nm].(*types.Var); ok && p.isPkgNamed(v.Type(), "PacketType") {
+							return cfs.Holds(eq(tVar(v), tConst(p.ConstInt("IKCP_PACKET_REGULAR"))))
+						}
+					}
+				}
+				return false
+			})
 		}
 		if nonneg && isDiff && fromClock && regular {
 			r.ok("C18.R3", s.Fn.Name, p.Pos(s.Call), construct, "sample = _itimediff(currentMs(), ts) >= 0, regular packets only")
